@@ -192,6 +192,10 @@ impl NumericParser {
 
     pub fn done(&mut self) -> bool {
         let ret = self.subtotal.add(&mut self.tmp) && self.total.add(&mut self.subtotal);
+        if !ret {
+            // the terms overlap: not a trailing separator error, the total is not the value
+            return false;
+        }
         if self.has_hanging_point {
             self.error_state = Error::POINT;
             return false;
